@@ -43,6 +43,11 @@ THEOREMS = [
     'CC.C10_transfer',
     'CC.C10_transfer_unique',
 ]
+THEOREMS += ['CC.C10_gen_Delta', 'CC.C10_gen_Q', 'CC.C10_gen_cols', 'CC.C10_gen_Lambda', 'CC.C10_gen_DQ', 'CC.C10_gen_matrices',
+    'CC.C10_gen_model', 'CC.C10_gen_rel', 'CC.C10_gen_row_potential', 'CC.C10_gen_row_voltage', 'CC.C10_gen_row_current',
+    'CC.C10_gen_sources', 'CC.C10_gen_wrapper', 'CC.C10_gen_circuit_values', 'CC.C10_gen_container']
+LEAN_MODULE_EXTRA = list(globals().get('LEAN_MODULE_EXTRA', [])) + ['CC.Properties.C10Gen']
+
 OPEN_STATEMENTS = []
 ASSUMPTIONS = [
     'numpy.linalg.inv is a parameter of the model: theorems hold for every pair of matrices with Ã·Ainv = 1 and (DQᵀ Ainv DQ)·S = 1; numpy\'s own inverses are checked against these equations on every case (exact residual ≤ 1e-9)',
